@@ -20,6 +20,7 @@ def run(tier, seed):
     for s in (44, 65, 87):
         vlib.drive(chk2, "sign", sets=s, seed=seed + 5, nfull=0, nfactor=28 if tier == "quick" else 112, allctx=0 if tier == "quick" else 1, out=fdir)
     common.validate_f(chk, {s: os.path.join(fdir, "sign_%d.ndjson" % s) for s in (44, 65, 87)}, nproc=9, chunks_per_set=3, key_of=lambda m: "format:" + m["ev"])
+    common.nohooks_leg(chk, "binding", nbase=3)
     common.mc_leg(chk, "MC_Format", tier=tier, workers=12)
     for v in ("nodom", "nolen"):
         common.mc_leg(chk, "MC_Format", cfg=common.MC_DIR + "/MC_Format_%s.cfg" % v, expect_violation=True, workers=4)
